@@ -322,6 +322,7 @@ type lctx struct {
 	leaf   func(v ssa.Value) *bx  // reader leaves (loads from the input)
 	depth  int
 	layout *layouts
+	alias  map[ssa.Value]ssa.Value // parameter of an expression helper being read in place → the caller's argument
 }
 
 func (c *lctx) expr(v ssa.Value) *bx {
@@ -330,6 +331,9 @@ func (c *lctx) expr(v ssa.Value) *bx {
 	}
 	c.depth++
 	defer func() { c.depth-- }()
+	if a, ok := c.alias[v]; ok {
+		return c.expr(a)
+	}
 	if c.leaf != nil {
 		if e := c.leaf(v); e != nil {
 			return e
@@ -456,6 +460,21 @@ func (c *lctx) expr(v ssa.Value) *bx {
 				}
 			}
 		}
+		// a one-expression helper over its arguments (func(b []byte) int { return int(binary.BigEndian.Uint32(b)) }) is read in place
+		if cal := com.StaticCallee(); cal != nil && inRepo(cal) && len(com.Args) == len(cal.Params) && isExprHelper(cal) {
+			if c.alias == nil {
+				c.alias = map[ssa.Value]ssa.Value{}
+			}
+			for i, p := range cal.Params {
+				c.alias[p] = com.Args[i]
+			}
+			ret := cal.Blocks[0].Instrs[len(cal.Blocks[0].Instrs)-1].(*ssa.Return)
+			e := c.expr(ret.Results[0])
+			for _, p := range cal.Params {
+				delete(c.alias, p)
+			}
+			return e
+		}
 		if cal := com.StaticCallee(); cal != nil && cal.Pkg != nil {
 			full := cal.Pkg.Pkg.Path() + "." + cal.Name()
 			switch full {
@@ -536,6 +555,44 @@ func (c *lctx) pos(v ssa.Value, sym func(v ssa.Value) (lpos, bool)) lpos {
 	return lpos{bad: "position " + v.Name() + " not understood"}
 }
 
+// isExprHelper: a single-block function with one result computed from its parameters by slicing, indexing,
+// big-endian loads, conversions and arithmetic only — no stores, no other calls.
+func isExprHelper(fn *ssa.Function) bool {
+	if fn.Blocks == nil || len(fn.Blocks) != 1 || fn.Signature.Results().Len() != 1 || fn.Signature.Recv() != nil || len(fn.FreeVars) > 0 {
+		return false
+	}
+	ins := fn.Blocks[0].Instrs
+	for i, in := range ins {
+		switch x := in.(type) {
+		case *ssa.Slice, *ssa.IndexAddr, *ssa.Convert, *ssa.ChangeType, *ssa.BinOp, *ssa.DebugRef:
+		case *ssa.UnOp:
+			if x.Op == token.MUL {
+				if g, isG := x.X.(*ssa.Global); isG && g.Pkg != nil && g.Pkg.Pkg.Path() == "encoding/binary" {
+					continue // the value of binary.BigEndian, the receiver of the load
+				}
+				if _, ok := x.X.(*ssa.IndexAddr); !ok {
+					return false
+				}
+			}
+		case *ssa.Call:
+			if b, ok := x.Common().Value.(*ssa.Builtin); ok && b.Name() == "len" {
+				continue
+			}
+			if isBigEndianGet(x.Common().StaticCallee()) == 0 {
+				return false
+			}
+		case *ssa.Return:
+			if i != len(ins)-1 || len(x.Results) != 1 {
+				return false
+			}
+		default:
+			return false
+		}
+	}
+	_, ok := ins[len(ins)-1].(*ssa.Return)
+	return ok
+}
+
 // sliceAt resolves a []byte/string value to (root value, offset).
 func (c *lctx) sliceAt(v ssa.Value, sym func(v ssa.Value) (lpos, bool)) (ssa.Value, lpos, ssa.Value) {
 	off := lpos{}
@@ -543,6 +600,10 @@ func (c *lctx) sliceAt(v ssa.Value, sym func(v ssa.Value) (lpos, bool)) (ssa.Val
 	for {
 		sl, ok := v.(*ssa.Slice)
 		if !ok {
+			if a, isAlias := c.alias[v]; isAlias {
+				v = a
+				continue
+			}
 			return v, off, high
 		}
 		if sl.Low != nil {
